@@ -383,8 +383,23 @@ func (g *gen) c10big() {
 	}
 }
 
+// arrays of many elements (around 1024, a size at which a decoder might stop pre-allocating from the header), flat and nested,
+// followed by another value
+func (g *gen) c10wide() {
+	for _, n := range g.pickInts([]int{1023, 1024, 1025, 1026, 2049, 5000}, []int{255, 256, 257, 1023, 1024, 1025, 1026, 2047, 2048, 2049, 4097, 5000, 65537, 200000}) {
+		elem := []string{":1\r\n", "$1\r\nx\r\n", "$-1\r\n", "+a\r\n"}[g.r.Intn(4)]
+		hdr := fmt.Sprintf("*%d\r\n", n)
+		next := "h" + hx([]byte(":7\r\n"))
+		seed := g.r.Int63n(1 << 31)
+		g.emit("decbig h%s+m%dx%s+%s %d 0", hx([]byte(hdr)), n, hx([]byte(elem)), next, seed)
+		g.emit("decbig h%s+m%dx%s+%s %d 16", hx([]byte("*2\r\n:5\r\n"+hdr)), n, hx([]byte(elem)), next, seed)
+		g.emit("decbig h%s+m%dx%s %d 0", hx([]byte(hdr)), n-1, hx([]byte(elem)), seed) // one element short
+	}
+}
+
 func genC10(g *gen) {
 	g.c10big()
+	g.c10wide()
 	// --- 0. the D13 witness and a few fixed shapes, always first
 	for _, s := range []string{"PING\r\n", "PING\r\n:1\r\n", "\n\nSET a  b \r\n\n+OK\r\n", "\r\n", "   \r\n:5\r\n", "x\n", "*1\r\n$4\r\nPING\r\n",
 		"$-1\r\n*-1\r\n$0\r\n\r\n*0\r\n", "*2\r\n\n:1\r\n\n:2\r\n", "*1\r\nPING\r\n", "*1\r\n\r\n", "$-2\r\n", "*-2\r\n", "$x\r\n", "*1x\r\n", ":\r\n", ":+\r\n", ":-\r\n",
@@ -684,6 +699,12 @@ func c10expand(spec string) []byte {
 			n, a := atoi(f[0]), atoi(f[1])
 			for i := 0; i < n; i++ {
 				out = append(out, byte(i*a+i/256))
+			}
+		case 'm': // m<count>x<hex>: the bytes <hex>, <count> times
+			f := strings.Split(p[1:], "x")
+			chunk := unhx(f[1])
+			for i := atoi(f[0]); i > 0; i-- {
+				out = append(out, chunk...)
 			}
 		default:
 			panic("bad piece " + p)
